@@ -60,7 +60,7 @@ def _events(block: List[ast.stmt], tab_names: set) -> List[Ev]:
             out.append(Ev("C2ep", st, a, list(c.args[1:])))
         elif d == f"self.{MCR}" and len(c.args) == 3:
             out.append(Ev("Cmcr", st, a, list(c.args[1:])))
-        elif a == "append" and isinstance(c.func, ast.Attribute) and "gate_list" in norm(c.func.value) and c.args \
+        elif a == "append" and isinstance(c.func, ast.Attribute) and isinstance(c.func.value, ast.Name) and c.args \
                 and isinstance(c.args[0], ast.Attribute) and norm(c.args[0].value) == "ops":
             out.append(Ev("APP", st, "append", [], [c.args[0].attr]))
     return out
